@@ -74,7 +74,7 @@ def main():
         if not shard_cases:
             return
         name = f"{prefix}_{shard_no}"
-        text = M.HEADER + "\n".join(shard_defs) + "\n"
+        text = M.HEADER + ("From TV Require Import proofs.Certs.\n" if cfg.get("certs") else "") + "\n".join(shard_defs) + "\n"
         text += "Definition cases : list verdict := [\n  " + ";\n  ".join(shard_cases) + "\n].\n"
         text += "Eval vm_compute in (failing_from 0 (fun v => v) cases).\n"
         with open(os.path.join(outdir, name + ".v"), "w") as f:
@@ -103,6 +103,9 @@ def main():
                 index.setdefault("generator_errors", []).append({"assignment": tpl, "formats": fm, "error": r})
             index["skipped"][r] = index["skipped"].get(r, 0) + 1
             continue
+        if cfg.get("certs") and "compute" in fdefs:
+            shard_cases.append(f"(if compute_cert {fdefs['compute']} then VOk else VMismatch \"compute_cert\")")
+            shard_meta.append({"assignment": tpl, "formats": fm, "kind": "cert", "inputs": None})
         names = list(prob.formats.keys())
         out_name = names[0]
         out_modes = "".join(m.character for m in prob.formats[out_name].modes)
